@@ -49,6 +49,41 @@ ALPHA_TEST = ALPHA_RUN / MAX_TESTS
 ETA = 1e-9
 
 
+class DidNotReturn(Exception):
+    pass
+
+
+class watchdog:
+    """`with watchdog(seconds):` raises DidNotReturn inside a Python-level loop of the code under test that
+    does not come back (main thread only; a no-op elsewhere)."""
+
+    def __init__(self, seconds):
+        self.seconds = seconds
+        self.armed = False
+
+    def _fire(self, *_):
+        raise DidNotReturn()
+
+    def __enter__(self):
+        import signal
+        import threading
+        if threading.current_thread() is threading.main_thread():
+            self.old = signal.signal(signal.SIGALRM, self._fire)
+            signal.alarm(self.seconds)
+            self.armed = True
+        return self
+
+    def __exit__(self, *exc):
+        import signal
+        if self.armed:
+            signal.alarm(0)
+            signal.signal(signal.SIGALRM, self.old)
+        return False
+
+
+CALL_TIMEOUT = 120   # seconds for one in-process call of the code under test (normally milliseconds)
+
+
 # ================================================================================================
 # A. scripted NoisySamplingSimulator.samples
 # ================================================================================================
@@ -211,7 +246,8 @@ def run_scripted(case):
 
     obs = {}
     try:
-        res = sim.samples(svd, case["ms"], case["sh"], cb if case["cb"] else None)
+        with watchdog(CALL_TIMEOUT):
+            res = sim.samples(svd, case["ms"], case["sh"], cb if case["cb"] else None)
         out = [tuple(s) for s in res["results"]]
         obs["n"] = len(out)
         obs["states"] = sorted(set(out))
@@ -272,6 +308,9 @@ def lean_req_scripted(case):
 def direct_oracle_scripted(case, obs):
     """The property evaluated on the real run, without the model.  -> None or (signature, what)."""
     ms, sh = case["ms"], case["sh"]
+    if obs.get("raise") == "DidNotReturn":
+        return ("does-not-return", f"samples(max_samples={ms}, max_shots={sh}) did not return within {CALL_TIMEOUT} s "
+                                   f"although the scripted outcomes end in an endless run of selected states")
     if "raise" in obs:
         return None
     lim = [x for x in (ms, sh) if x is not None]
@@ -1006,14 +1045,18 @@ def limits_case(spec, ms, sh, via):
     obs = {}
     try:
         if via == "processor":
-            res = p.samples(ms, sh)
+            with watchdog(CALL_TIMEOUT):
+                res = p.samples(ms, sh)
             out = [tuple(s) for s in res["results"]]
         else:
             sampler = Sampler(p) if sh is None else Sampler(p, max_shots_per_call=sh)
             job = sampler.samples if via == "sampler.samples" else sampler.sample_count
             args = (ms,) if ms is not None else ()
             try:
-                res = job.execute_sync(*args)
+                # "no max_samples" means SAMPLES_MAX_COUNT = 1e8 to the Sampler; every request here is bounded by
+                # max_shots <= 17, so a smaller ceiling changes nothing unless the shot limit is ignored
+                with mock.patch.object(Sampler, "SAMPLES_MAX_COUNT", 20000), watchdog(CALL_TIMEOUT):
+                    res = job.execute_sync(*args)
             finally:
                 failed = job.is_failed
             if failed:
@@ -1431,6 +1474,98 @@ def judge_gof(chk, r):
     return None
 
 
+def tag_pattern(bs):
+    """Canonical form of an annotated state, invariant under renaming of the tags: for every tag the sorted tuple
+    of modes its photons sit in; the sorted list of those tuples (+ the mode count)."""
+    classes = {}
+    for mode in range(bs.m):
+        k = bs[mode]
+        if k == 0:
+            continue
+        anns = [str(a) for a in bs.get_mode_annotations(mode)]
+        anns += [""] * (k - len(anns))          # un-annotated photons share the empty tag
+        for a in anns:
+            classes.setdefault(a, []).append(mode)
+    return (bs.m,) + tuple(sorted(tuple(v) for v in classes.values()))
+
+
+def source_gof_part(chk, n_cfg, n_samples):
+    """E2: the source emission of the sampling path (`Source.generate_samples`, Python `random`) against the
+    input distribution strong simulation starts from (`Source.generate_distribution`), outcome = photon
+    positions and which photons share a tag.  Same thresholds as the other goodness-of-fit tests."""
+    import perceval as pcvl
+    from perceval.utils import BasicState, NoiseModel
+    from perceval.components import Source
+    rng = chk.rng
+    for i in range(n_cfg):
+        nz = {"brightness": rng.choice([1.0, 0.8, 0.5]), "transmittance": rng.choice([1.0, 0.9, 0.6]),
+              "g2": rng.choice([0.0, 0.05, 0.2]), "indistinguishability": rng.choice([1.0, 0.9, 0.5]),
+              "g2_distinguishable": rng.random() < 0.5}
+        if i % 3 == 0:
+            nz["indistinguishability"] = rng.choice([0.9, 0.5])
+        if i % 3 == 1:
+            nz["g2"] = rng.choice([0.05, 0.2])
+        if nz["brightness"] == nz["transmittance"] == nz["indistinguishability"] == 1.0 and nz["g2"] == 0.0:
+            nz["transmittance"] = 0.7
+        inp = rng.choice([[1, 1], [1, 0, 1], [1, 1, 1], [2, 1], [1], [0, 2, 0]])
+        filt = rng.choice([0, 0, 1, 2]) if sum(inp) >= 2 else rng.choice([0, 1])
+        seed = rng.randrange(2 ** 31)
+        replay = {"part": "source-gof", "noise": nz, "input": inp, "filter": filt, "n": n_samples, "seed": seed}
+        res = judge_source_gof(chk, nz, inp, filt, n_samples, seed, replay)
+        chk.branch("gof-source-emission")
+        if nz["g2"] > 0:
+            chk.branch("gof-source-g2")
+        if nz["indistinguishability"] < 1:
+            chk.branch("gof-source-tagged")
+        if filt:
+            chk.branch("gof-source-filtered")
+        chk.case(("E2", json.dumps(nz, sort_keys=True), tuple(inp), filt), nontrivial=True, sample=None)
+        if res is not None:
+            chk.fail(*res)
+
+
+def judge_source_gof(chk, nz, inp, filt, n_samples, seed, replay):
+    import perceval as pcvl
+    from perceval.utils import BasicState, NoiseModel
+    from perceval.components import Source
+    pcvl.random_seed(seed)
+    src = Source.from_noise_model(NoiseModel(**nz))
+    expected = BasicState(inp)
+    ref = {}
+    for sv, p in src.generate_distribution(expected, 0).items():
+        if len(sv) != 1:
+            return ("broken", "gof:source-superposed", f"generate_distribution returned a superposition {sv}", replay)
+        bs = sv[0]
+        if bs.n >= filt:
+            k = tag_pattern(bs)
+            ref[k] = ref.get(k, 0.0) + float(p)
+    tot = sum(ref.values())
+    if tot <= 0:
+        return None
+    ref = {k: v / tot for k, v in ref.items()}
+    try:
+        with watchdog(CALL_TIMEOUT):
+            smp = Source.from_noise_model(NoiseModel(**nz)).generate_samples(n_samples, expected, filt)
+    except Exception as e:  # noqa: BLE001
+        return ("violation", "gof:source-exception", f"Source.generate_samples raised {type(e).__name__}", replay)
+    counts = {}
+    for x in smp:
+        k = tag_pattern(x)
+        counts[k] = counts.get(k, 0) + 1
+    chk.extra["gof_tests"] = chk.extra.get("gof_tests", 0) + 1
+    chk.count("gof_source_support", len(ref))
+    if len(smp) != n_samples:
+        return ("violation", "gof:source-count", f"Source.generate_samples({n_samples}) returned {len(smp)} states",
+                replay)
+    rej = gof(ref, counts, n_samples, ALPHA_TEST)
+    if rej:
+        return ("violation", "gof:source-emission-mismatch",
+                f"STATISTICAL TEST (false-alarm <= {ALPHA_RUN:g} per run): Source.generate_samples (noise {nz}, input "
+                f"{inp}, filter {filt}, {n_samples} samples) against Source.generate_distribution, outcome = (modes; "
+                f"groups of photons sharing a tag): {rej}", replay)
+    return None
+
+
 def gof_part(chk, n_cfg, n_samples, nproc):
     import multiprocessing as mp
     rng = chk.rng
@@ -1512,6 +1647,11 @@ def replay_one(chk, rp):
         chk.case(("E", "replay"), nontrivial=True)
         if res is not None:
             chk.fail(*res)
+    elif part == "source-gof":
+        res = judge_source_gof(chk, rp["noise"], rp["input"], rp["filter"], rp["n"], rp["seed"], rp)
+        chk.case(("E2", "replay"), nontrivial=True)
+        if res is not None:
+            chk.fail(*res)
     elif part == "seed":
         seed_part(chk, [rp.get("seed", 0), rp.get("seed", 0) + 1])
     elif part in ("count", "c2p"):
@@ -1559,7 +1699,8 @@ def run(chk: core.Check):
         "limits-bound-reached", "limits-empty", "limits-exact-count", "limits-rejected-None-max_samples",
         "limits-rejected-no-limit", "seed-path",
         "gof-perfect", "gof-selected", "gof-noisy", "gof-noisy-selected", "gof-detectors", "gof-everything",
-        "gof-tagged-inputs", "gof-performances",
+        "gof-tagged-inputs", "gof-performances", "gof-source-emission", "gof-source-g2", "gof-source-tagged",
+        "gof-source-filtered",
     ]
     chk.lean = core.LeanDriver("C09")
     rng = chk.rng
@@ -1601,7 +1742,8 @@ def run(chk: core.Check):
     timed("D seeds", seed_part, chk, [chk.seed * 1000 + i for i in range(chk.pick(3, 10))])
     # E
     nproc = max(1, min(chk.pick(8, 14), (os.cpu_count() or 2) - 1))
-    timed("E goodness of fit", gof_part, chk, chk.pick(18, 96), chk.pick(8000, 60000), nproc)
+    timed("E2 source emission", source_gof_part, chk, chk.pick(18, 120), chk.pick(50000, 300000))
+    timed("E goodness of fit", gof_part, chk, chk.pick(18, 144), chk.pick(8000, 100000), nproc)
     chk.extra["part_seconds"] = secs
     chk.extra["statistical_test"] = {
         "label": "VALIDATION (statistical test, not proof)",
